@@ -428,6 +428,53 @@ def classify(e, folded, unfolded):
     return "folder-accepts-what-run-time-rejects:" + shape(e)
 
 
+# ---- a literal expression INSIDE an expression that is not all literals (next to a variable, a call, a string, an element
+# of a list literal; in a branch, loop or function that never runs) is still a literal expression: the compiler evaluates
+# it, and rejects it exactly when its evaluation fails -- on whichever side of the non-constant operand it stands.  Fixed.
+EMB_FAILING = ["1 / 0", "5 % 0", "2147483647 + 1", "1 << 32", "B1 / B0", "0b1 / 0b0", "1.5 / 0b0", "-(-2147483647 - 1)", "65536 * 65536"]
+EMB_FINE = [("6 / 2", "3"), ("7 % 4", "3"), ("2147483000 + 1", "2147483001"), ("1 << 30", "1073741824"), ("-(-2147483000)", "2147483000")]
+EMB_PRE = "a = 7\nf = fn(n: int) -> int {\n  return n\n}\ng = fn(p: int, q: int) -> int {\n  return p + q\n}\nprint \"start\"\n"
+EMB_CTX = {"right-of-variable": ("print a + (%s)\n", lambda v: str(7 + v)), "left-of-variable": ("print (%s) + a\n", lambda v: str(v + 7)),
+           "right-of-call": ("print f(a) + (%s)\n", lambda v: str(7 + v)), "right-of-indexed-literal": ("print [2, 3][0] + (%s)\n", lambda v: str(2 + v)),
+           "deeper": ("print a * ((%s) + 0)\n", lambda v: None), "argument": ("print g(a, %s)\n", lambda v: str(7 + v)),
+           "list-next-to-variable": ("x: [int...] = [a, %s]\nprint x\n", lambda v: "[7, %d]" % v), "branch-not-taken": ("if a > 100 {\n  print a + (%s)\n}\n", lambda v: ""),
+           "loop-not-run": ("while a > 100 {\n  print a - (%s)\n}\n", lambda v: ""), "function-never-called": ("h = fn() -> int {\n  return a + (%s)\n}\n", lambda v: ""),
+           "assigned": ("x = a - (%s)\nprint x\n", lambda v: str(7 - v)), "condition": ("if a < (%s) {\n  print 1\n}\n", lambda v: "1" if 7 < v else ""),
+           "right-of-string": ("print \"s\" + (%s)\n", lambda v: "s%d" % v)}
+
+
+def run_embedded(ctx, binary):
+    base = ctx.mktemp()
+    cases = []
+    for cn, (tmpl, expf) in sorted(EMB_CTX.items()):
+        for fl in EMB_FAILING:
+            cases.append((cn, fl, EMB_PRE + (tmpl % fl) + "print \"end\"\n", None))
+        for ok_src, val in EMB_FINE:
+            exp = expf(int(val))
+            if exp is not None:
+                cases.append((cn, ok_src, EMB_PRE + (tmpl % ok_src) + "print \"end\"\n", ["start"] + ([exp] if exp != "" else []) + ["end"]))
+
+    def one(c):
+        d = programs.materialize({"files": {"m.ms": c[2]}}, base)
+        r = programs.run_bin(binary, ["run", "m.ms", "-q"], d)
+        import shutil
+        shutil.rmtree(d, ignore_errors=True)
+        return r
+    n = 0
+    for (cn, lit_src, src, exp), (rc, out, err) in zip(cases, programs.pmap(one, cases)):
+        n += 1
+        rejected = "Did not compile successfully" in err and "start" not in out
+        if exp is None and not rejected:
+            ctx.report("embedded-literal:failing-not-rejected", "the failing literal expression `%s` %s is not rejected by the compiler (exit %d, printed %r): a literal expression is rejected exactly when its evaluation fails"
+                       % (lit_src, cn, rc, out.split("\n")[:3]), {"context": cn, "literal_expression": lit_src, "program": src, "rc": rc, "stdout": out[-300:], "stderr": err[-400:], "how": "mscript run m.ms -q"})
+        elif exp is not None and (rc != 0 or out.split("\n")[:-1] != exp):
+            ctx.report("embedded-literal:fine-literal-wrong", "the literal expression `%s` %s: exit %d, printed %r, expected %r %s"
+                       % (lit_src, cn, rc, out.split("\n")[:-1], exp, [l.strip() for l in (out + err).splitlines() if l.strip().startswith("=")][:1]),
+                       {"context": cn, "literal_expression": lit_src, "program": src, "expected": exp, "rc": rc, "stdout": out[-300:], "stderr": err[-400:], "how": "mscript run m.ms -q"})
+    ctx.cov["embedded_literal_cases"] = {"programs": n, "contexts": sorted(EMB_CTX), "failing_literals": EMB_FAILING}
+    return n
+
+
 def run(ctx):
     ok = core.coq_props(ctx, "Props/C06.v")
     binary = core.build_repo()
@@ -504,7 +551,10 @@ def run(ctx):
                        "%s disagrees with the implementation on `%s`: folded observed=%s model=%s; unfolded observed=%s model=%s" % (which, f.strip(), folded, m["fold"], unfolded, m["rt"]),
                        {"tree": sexp(core_tree(e)), "folded_program": f, "unfolded_program": u, "folded_observed": folded,
                         "unfolded_observed": unfolded, "model": m}, found_input=False)
-    ctx.cov["evaluations"] = 2 * len(trees) + n_mixed
+    nv = len(ctx.viol)
+    n_emb = run_embedded(ctx, binary)
+    prop_fail += len(ctx.viol) - nv
+    ctx.cov["evaluations"] = 2 * len(trees) + n_mixed + n_emb
     ctx.cov["mixed_renderings_compared"] = n_mixed
     ctx.cov["distinct_nontrivial"] = len(nontrivial)
     ctx.cov["exhaustive"] = exhaustive
